@@ -461,10 +461,16 @@ func (m *Manager) addTCPConnection(allocation *Allocation, conn net.Conn) (proto
 	tcpConn := &tcpConnection{conn, atomic.Bool{}, nil}
 	allocation.tcpConnections[connectionID] = tcpConn
 	tcpConn.bindTimer = time.AfterFunc(m.tcpConnectionBindTimeout, func() {
-		if !tcpConn.isBound.Load() {
-			m.log.Warnf("Removing TCP Connection that was never bound %v %v", connectionID, allocation.fiveTuple)
-			allocation.RemoveTCPConnection(m, connectionID)
+		// Decide under the manager lock: a ConnectionBind that got the lock
+		// first has claimed the connection, and it must then be left alone.
+		m.lock.Lock()
+		defer m.lock.Unlock()
+
+		if tcpConn.isBound.Load() || allocation.tcpConnections[connectionID] != tcpConn {
+			return
 		}
+		m.log.Warnf("Removing TCP Connection that was never bound %v %v", connectionID, allocation.fiveTuple)
+		allocation.removeTCPConnection(connectionID)
 	})
 
 	return connectionID, nil
